@@ -198,9 +198,8 @@ theorem isComplete_applyOutcome (p : PlannerP) (o : Outcome) (x : PlannerS) (hx 
 earlier day or issued today), each once; every deployed site holds one on every day of its
 deployment calendar; a planned site is observed (its survey completes and is counted once) iff the
 day is workable for it (crew outcome `completed`), otherwise the request is carried -/
-theorem stationary_once_per_workable_day (c : Cfg) (hc : c.sites.Nodup) (hk : c.kind = .stationary)
-    (ds : List DayIn) (d : DayIn) :
-    let s := runDays c ds
+theorem stationary_day (c : Cfg) (hc : c.sites.Nodup) (hk : c.kind = .stationary)
+    (s : State) (hi : Inv s) (d : DayIn) :
     (planOn c d s).Nodup ∧
     (∀ i, i ∈ planOn c d s ↔ ((s.pl i).queued = true ∨ i ∈ issued c d.date s)) ∧
     (∀ i ∈ c.sites, d.date.y ∈ (c.P i).depYears → d.date.m ∈ (c.P i).months →
@@ -209,8 +208,6 @@ theorem stationary_once_per_workable_day (c : Cfg) (hc : c.sites.Nodup) (hk : c.
     (∀ i y, done ((scheduleDay c d s).pl i) y =
         done (s.pl i) y + (if completesAt c d s i = true ∧ y = d.date.y then 1 else 0)) ∧
     (∀ i, i ∈ planOn c d s → d.out i ≠ .completed → i ∈ (scheduleDay c d s).q.sites) := by
-  intro s
-  have hi : Inv s := inv_runDays c hc ds
   have h1 := inv_request c hc d.date s hi
   have hall : planOn c d s = (requestPhase c d.date s).q.sites := by
     unfold planOn
@@ -508,6 +505,223 @@ theorem all_done_when_feasible (c : Cfg) (hc : c.sites.Nodup) (hk : c.kind = .ro
   rw [hreq, ← hlen]
   exact year_count (c.P i) hlen hplan (yr.map md) 0 (Nat.zero_le _) hdates (by simpa using hin)
 
+/-- a stationary schedule plans, every day, exactly the sites that hold a request (carried from an
+earlier day or issued today), each once; every deployed site holds one on every day of its
+deployment calendar; a planned site is observed (its survey completes and is counted once) iff the
+day is workable for it (crew outcome `completed`), otherwise the request is carried — for every
+reachable state -/
+theorem stationary_once_per_workable_day (c : Cfg) (hc : c.sites.Nodup) (hk : c.kind = .stationary)
+    (ds : List DayIn) (d : DayIn) :
+    let s := runDays c ds
+    (planOn c d s).Nodup ∧
+    (∀ i, i ∈ planOn c d s ↔ ((s.pl i).queued = true ∨ i ∈ issued c d.date s)) ∧
+    (∀ i ∈ c.sites, d.date.y ∈ (c.P i).depYears → d.date.m ∈ (c.P i).months →
+        0 < required (c.P i) d.date.y → i ∈ planOn c d s) ∧
+    (∀ i, completesAt c d s i = true ↔ (i ∈ planOn c d s ∧ d.out i = .completed)) ∧
+    (∀ i y, done ((scheduleDay c d s).pl i) y =
+        done (s.pl i) y + (if completesAt c d s i = true ∧ y = d.date.y then 1 else 0)) ∧
+    (∀ i, i ∈ planOn c d s → d.out i ≠ .completed → i ∈ (scheduleDay c d s).q.sites) :=
+  stationary_day c hc hk (runDays c ds) (inv_runDays c hc ds) d
+
+/-- the stationary request guard does not look at the number of surveys done -/
+theorem stationary_guard_ignores_done (p : PlannerP) (dt : Date) (s : PlannerS) (l : List Nat) :
+    guardStationary p dt { s with log := l } = guardStationary p dt s := rfl
+
+/-- every kind of schedule books a completed survey on the year of the completion day, exactly once -/
+theorem counted_on_completion_year (c : Cfg) (d : DayIn) (s : State) (i y : Nat) :
+    done ((scheduleDay c d s).pl i) y =
+      done (s.pl i) y + (if completesAt c d s i = true ∧ y = d.date.y then 1 else 0) := by
+  unfold done
+  rw [(day_site c d s i).1]
+  cases hcp : completesAt c d s i
+  · simp
+  · simp only [if_true, List.count_cons, true_and]
+    by_cases hy : y = d.date.y
+    · subst hy; simp
+    · have : (d.date.y == y) = false := by simp; exact fun h => hy h.symm
+      simp [this, hy]
+
+/-- **stationary, fully workable period** (in particular a complete leap year): if every day of the
+history lies in the site's deployment calendar and is workable for every site, the site is observed
+on every single day — the count for year `y` is the number of simulated days of `y` (366 in a leap
+year, although the planner's nominal requirement is 365) -/
+theorem stationary_every_workable_day (c : Cfg) (hc : c.sites.Nodup) (hk : c.kind = .stationary) (i : Nat)
+    (his : i ∈ c.sites) (ds : List DayIn) (s : State) (hi : Inv s) (hq : (s.pl i).queued = false)
+    (hcal : ∀ d ∈ ds, d.date.y ∈ (c.P i).depYears ∧ d.date.m ∈ (c.P i).months ∧ 0 < required (c.P i) d.date.y)
+    (hw : ∀ d ∈ ds, d.out i = .completed) (y : Nat) :
+    done ((ds.foldl (fun s d => scheduleDay c d s) s).pl i) y
+      = done (s.pl i) y + (ds.filter (fun d => d.date.y = y)).length ∧
+    ((ds.foldl (fun s d => scheduleDay c d s) s).pl i).queued = false := by
+  induction ds generalizing s with
+  | nil => simp [hq]
+  | cons d ds ih =>
+    simp only [List.foldl_cons]
+    have hd := stationary_day c hc hk s hi d
+    have hcd := hcal d (by simp)
+    have hplan : i ∈ planOn c d s := hd.2.2.1 i his hcd.1 hcd.2.1 hcd.2.2
+    have hcomp : completesAt c d s i = true := (hd.2.2.2.1 i).2 ⟨hplan, hw d (by simp)⟩
+    have hq' : ((scheduleDay c d s).pl i).queued = false := by
+      rw [(day_site c d s i).2, hcomp]; rfl
+    have := ih (scheduleDay c d s) (inv_scheduleDay c hc d s hi) hq'
+      (fun d' hd' => hcal d' (by simp [hd'])) (fun d' hd' => hw d' (by simp [hd']))
+    refine ⟨?_, this.2⟩
+    rw [this.1, counted_on_completion_year, hcomp, List.filter_cons]
+    by_cases hy : d.date.y = y
+    · simp [hy]; omega
+    · have : ¬ (y = d.date.y) := fun h => hy h.symm
+      simp [hy, this]
+
+/-! ### never where the method is not deployed -/
+
+/-- site `i`'s planner never issues a request -/
+def NeverIssued (c : Cfg) (i : Nat) : Prop := ∀ dt s, i ∉ issued c dt s
+
+theorem neverIssued_of_guard (c : Cfg) (i : Nat) (h : ∀ dt ps, guardK c.kind (c.P i) dt ps = false) :
+    NeverIssued c i := by
+  intro dt s hi
+  unfold issued at hi
+  rw [List.mem_filter] at hi
+  rw [h] at hi
+  exact Bool.noConfusion hi.2
+
+theorem neverIssued_of_not_site (c : Cfg) (i : Nat) (h : i ∉ c.sites) : NeverIssued c i := by
+  intro dt s hi
+  unfold issued at hi
+  exact h (List.mem_filter.1 hi).1
+
+theorem neverIssued_of_rs_zero (c : Cfg) (i : Nat) (h : (c.P i).rs = 0) : NeverIssued c i := by
+  apply neverIssued_of_guard
+  intro dt ps
+  have h0 : required (c.P i) dt.y = 0 := by unfold required; simp [h]
+  cases c.kind <;>
+    simp only [guardK, guardRoutine, guardStationary, h0, Nat.not_lt_zero, Nat.lt_irrefl, decide_false,
+      Bool.and_false, Bool.false_and]
+
+theorem neverIssued_day (c : Cfg) (i : Nat) (h : NeverIssued c i) (d : DayIn) (s : State)
+    (hq : (s.pl i).queued = false) : ((scheduleDay c d s).pl i).queued = false := by
+  rw [(day_site c d s i).2]
+  split
+  · rfl
+  · rw [request_queued, hq]; simp [h d.date s]
+
+theorem neverIssued_not_planned (c : Cfg) (hc : c.sites.Nodup) (i : Nat) (h : NeverIssued c i) (d : DayIn)
+    (s : State) (hi : Inv s) (hq : (s.pl i).queued = false) : i ∉ planOn c d s := by
+  intro hp
+  have := planKeys_queued c _ (inv_request c hc d.date s hi) i hp
+  rw [request_queued, hq] at this
+  simp [h d.date s] at this
+
+/-- **never where not deployed**: a site whose planner never passes the request guard (frequency 0
+because the method is not deployed there, see `not_deployed_never_requested`) is never in a work
+plan, on any day of any history -/
+theorem not_deployed_never_planned (c : Cfg) (hc : c.sites.Nodup) (i : Nat)
+    (h : ∀ dt ps, guardK c.kind (c.P i) dt ps = false) (ds : List DayIn) (d : DayIn) :
+    i ∉ planOn c d (runDays c ds) ∧ ∀ y, done ((runDays c ds).pl i) y = 0 := by
+  have hn := neverIssued_of_guard c i h
+  have key : ∀ (ds : List DayIn) (s : State), Inv s → (s.pl i).queued = false → (∀ y, done (s.pl i) y = 0) →
+      let s' := ds.foldl (fun s d => scheduleDay c d s) s
+      Inv s' ∧ (s'.pl i).queued = false ∧ ∀ y, done (s'.pl i) y = 0 := by
+    intro ds
+    induction ds with
+    | nil => intro s a b c'; exact ⟨a, b, c'⟩
+    | cons d ds ih =>
+      intro s a b c'
+      simp only [List.foldl_cons]
+      apply ih _ (inv_scheduleDay c hc d s a) (neverIssued_day c i hn d s b)
+      intro y
+      rw [counted_on_completion_year, c' y]
+      have hnc : completesAt c d s i = false := by
+        cases hcp : completesAt c d s i
+        · rfl
+        · unfold completesAt at hcp
+          simp only [Bool.and_eq_true, decide_eq_true_eq] at hcp
+          exact absurd hcp.1 (neverIssued_not_planned c hc i hn d s a b)
+      simp [hnc]
+  have := key ds init inv_init rfl (fun y => by simp [init, done])
+  exact ⟨neverIssued_not_planned c hc i hn d _ this.1 this.2.1, this.2.2⟩
+
+/-! ### `done ≤ required` under a static, decidable hypothesis -/
+
+/-- every deployed planner of the method has all simulated years among its deployment years and its
+counter years (the default configuration: no deployment-year list, simulation ending on Dec 31) -/
+def StaticYears (c : Cfg) (ds : List DayIn) : Prop :=
+  ∀ i ∈ c.sites, (c.P i).rs = 0 ∨ ∀ d ∈ ds, d.date.y ∈ (c.P i).depYears ∧ d.date.y ∈ (c.P i).simYears
+
+instance (c : Cfg) (ds : List DayIn) : Decidable (StaticYears c ds) := by unfold StaticYears; infer_instance
+
+theorem completesOK_of_static (c : Cfg) (hc : c.sites.Nodup) (ds : List DayIn) (hs : StaticYears c ds)
+    (s : State) (hi : Inv s) (hq : ∀ i, NeverIssued c i → (s.pl i).queued = false) : CompletesOK c s ds := by
+  induction ds generalizing s with
+  | nil => trivial
+  | cons d ds ih =>
+    refine ⟨?_, ?_⟩
+    · intro i hcp
+      have hkeys : i ∈ planOn c d s := by
+        unfold completesAt at hcp
+        simp only [Bool.and_eq_true, decide_eq_true_eq] at hcp
+        exact hcp.1
+      by_cases his : i ∈ c.sites
+      · rcases hs i his with h0 | hy
+        · have hn := neverIssued_of_rs_zero c i h0
+          exact absurd hkeys (neverIssued_not_planned c hc i hn d s hi (hq i hn))
+        · have := hy d (by simp)
+          by_cases h0 : (c.P i).rs = 0
+          · have hn := neverIssued_of_rs_zero c i h0
+            exact absurd hkeys (neverIssued_not_planned c hc i hn d s hi (hq i hn))
+          · unfold required; simp [this.1, this.2]; omega
+      · have hn := neverIssued_of_not_site c i his
+        exact absurd hkeys (neverIssued_not_planned c hc i hn d s hi (hq i hn))
+    · apply ih
+      · intro i hi'
+        rcases hs i hi' with h | h
+        · left; exact h
+        · right; intro d' hd'; exact h d' (by simp [hd'])
+      · exact inv_scheduleDay c hc d s hi
+      · intro i hn; exact neverIssued_day c i hn d s (hq i hn)
+
+/-- **never more than required, static form**: no run-dependent hypothesis — it is enough that the
+simulated years are deployment years and counter years of every deployed planner -/
+theorem done_le_required_static (c : Cfg) (hc : c.sites.Nodup) (hk : c.kind = .routine) (ds : List DayIn)
+    (hch : Chrono ds) (hs : StaticYears c ds) (i y : Nat) :
+    done ((runDays c ds).pl i) y ≤ required (c.P i) y :=
+  done_le_required_partial c hc hk ds hch
+    (completesOK_of_static c hc ds hs init inv_init (fun _ _ => rfl)) i y
+
+/-! ### calendar: what does hold -/
+
+theorem issued_in_calendar (c : Cfg) (dt : Date) (s : State) (i : Nat) (hi : i ∈ issued c dt s) :
+    dt.y ∈ (c.P i).depYears ∧ dt.m ∈ (c.P i).months := by
+  unfold issued at hi
+  rw [List.mem_filter] at hi
+  have hg := hi.2
+  cases hk : c.kind <;>
+    simp only [hk, guardK, guardRoutine, guardStationary, Bool.and_eq_true, decide_eq_true_eq] at hg
+  · exact ⟨hg.1.1.1.1, hg.1.1.1.2⟩
+  · exact ⟨hg.1.1.1, hg.1.1.2⟩
+  · exact ⟨hg.1.1.1.1, hg.1.1.1.2⟩
+
+/-- a site planned on a day outside its deployment calendar holds a request *carried* from an earlier
+day (routine and stationary schedules): only carried requests can be served outside the calendar -/
+theorem calendar_partial (c : Cfg) (hc : c.sites.Nodup) (s : State) (hi : Inv s) (d : DayIn) (i : Nat)
+    (hp : i ∈ planOn c d s) (hout : ¬ (d.date.y ∈ (c.P i).depYears ∧ d.date.m ∈ (c.P i).months)) :
+    (s.pl i).queued = true := by
+  have := planKeys_queued c _ (inv_request c hc d.date s hi) i hp
+  rw [request_queued] at this
+  by_cases hiss : i ∈ issued c d.date s
+  · exact absurd (issued_in_calendar c d.date s i hiss) hout
+  · simpa [hiss] using this
+
+/-- when nothing is carried (every request so far completed the day it was issued) every planned
+site is inside its deployment calendar -/
+theorem calendar_when_nothing_carried (c : Cfg) (hc : c.sites.Nodup) (s : State) (hi : Inv s)
+    (hq : ∀ i, (s.pl i).queued = false) (d : DayIn) (i : Nat) (hp : i ∈ planOn c d s) :
+    d.date.y ∈ (c.P i).depYears ∧ d.date.m ∈ (c.P i).months := by
+  apply Classical.byContradiction
+  intro hout
+  have := calendar_partial c hc s hi d i hp hout
+  rw [hq i] at this
+  exact Bool.noConfusion this
+
 /-! ### the property at full strength, and what is false of the code as it stands -/
 
 instance (a b : Nat × Nat) : Decidable (mdLt a b) := by unfold mdLt; infer_instance
@@ -520,7 +734,7 @@ def C06_count_statement : Prop :=
 /-- routine surveys take place only in deployment years and deployment months: whenever a planned
 site is worked on, the day lies in the site's deployment calendar -/
 def C06_calendar_statement : Prop :=
-  ∀ (c : Cfg) (ds : List DayIn) (d : DayIn), c.kind = .routine → c.sites.Nodup → Chrono (ds ++ [d]) →
+  ∀ (c : Cfg) (ds : List DayIn) (d : DayIn), c.kind ≠ .followup → c.sites.Nodup → Chrono (ds ++ [d]) →
     ∀ i ∈ planOn c d (runDays c ds), d.out i ≠ .untouched →
       d.date.y ∈ (c.P i).depYears ∧ d.date.m ∈ (c.P i).months
 
@@ -565,7 +779,7 @@ def allCompleted : Nat → Outcome := fun _ => .completed
 theorem C06_calendar_counterexample : ¬ C06_calendar_statement := by
   intro h
   have := h cexCfg [{ date := ⟨2024, 1, 31⟩, out := allCompleted }] { date := ⟨2024, 2, 1⟩, out := allCompleted }
-    rfl (by decide) (by unfold Chrono; decide) 2 (by decide +kernel) (by decide)
+    (by decide) (by decide) (by unfold Chrono; decide) 2 (by decide +kernel) (by decide)
   revert this
   decide +kernel
 
